@@ -532,6 +532,7 @@ def corpus_calls(tier, seed, rnd, n=None, repeat=False):
                 pass
         if smp != "convert" and i % 3 == 1:
             c["via"] = "aspire"          # through Aspire.sample_posterior(sampler=..., rng=...)
+            c["out_ns"] = [None, "numpy", "torch", "jax"][(i // 3) % 4]
             c["precond"] = "default" if c["precond"] != "none" else "none"
         specs.append(_mk(i, "calls_repeat" if repeat else "calls", {"cfg": c}))
     for sp in specs:
